@@ -765,9 +765,9 @@ def layout(toks: list[Tok], rnd: random.Random | None = None, style: str = "cano
         if c < 0.6:
             return "\n" + " " * rnd.randint(0, 6)
         if c < 0.7:
-            return " /* c" + str(rnd.randint(0, 9)) + " */ "
+            return " /* " + rnd.choice(["c" + str(rnd.randint(0, 9)), "TODO: x", "FIXME: a, b", "NOTE x", "key = [1, 2]", "[b]bold[/b]", "Position<'m', 1, 2>"]) + " */ "
         if c < 0.78:
-            return " // note " + rnd.choice(["", "x", "'", "\"", "/*"]) + "\n" + " " * rnd.randint(0, 4)
+            return " // " + rnd.choice(["note ", "note x", "note '", "note \"", "note /*", "TODO: fix", "XXX: [hero, 3]", "a = b;"]) + "\n" + " " * rnd.randint(0, 4)
         if c < 0.84:
             return "\t"
         if c < 0.9:
